@@ -12,6 +12,11 @@ ASSUMPTIONS = {
     'A-oneshot': 'tokio oneshot: send consumes the sender and hands the value to the paired receiver or returns it; close() happens-before a later is_closed()',
     'A-mpsc': 'tokio mpsc: poll_recv is FIFO, None is stable, Pending registers the waker',
     'A-sink': 'the transport obeys the futures Sink/Stream contract (Fuse included)',
+    'A-atomic': 'AtomicUsize::fetch_add returns the previous value and adds atomically, wrapping (prelude/atomic_counter.rs); the memory ordering argument only concerns other memory',
+    'A-hash': 'hash_request (BuildHasher::build_hasher, Hash::hash, Hasher::finish) is a function of the hasher and the request (prelude/lb_models.rs); the struct invariant stubs_len == stubs.len() is established by ConsistentHash::new / with_hasher (two-line constructors, not under contract; exercised by the Kani harness)',
+    'A-stub': 'the stub wrapped by Retry is an arbitrary implementation of Stub<Req = Arc<Req>>: it may answer anything; each call is one entry of the ghost log (prelude/retry_models.rs); Arc::new / Arc::clone preserve the value (vstd)',
+    'A-range-from': 'RangeFrom<u32>::next yields the counter and advances it by one below u32::MAX (rule R18)',
+    'A-derive': '#[derive(Default)] on server::InFlightRequests builds every field with its own Default (no source text to extract); that this state satisfies the table invariant is the checked lemma lemma_default_wf',
     'A-abortable': 'futures Abortable/AbortHandle semantics; Rust drop order',
     'A-ids': 'request ids reaching the dispatch are pairwise distinct: AtomicUsize::fetch_add is atomic and a channel sees fewer than 2^64 calls (that every clone of a client handle shares the ONE counter and the same dispatch queues is proved: `Clone for Channel` is under contract in unit client)',
     'A-pair': 'Channel::call enqueues the sender of the receiver it then awaits, with the id it allocated',
@@ -35,6 +40,7 @@ VERUS_UNITS = {
     'util_compact': 'contracts.util_compact',
     'transports': 'contracts.transports',
     'lb_fairness': 'contracts.lb_fairness',
+    'retry': 'contracts.retry',
 }
 
 PROPS = {}
@@ -64,7 +70,7 @@ TECH_V = 'Verus: contracts (requires/ensures/loop invariants, ghost effect log a
 TECH_K = 'Kani/CBMC: assume(requires); one call of the real function; assert(ensures) over full-domain symbolic inputs, harness mounted in the real crate under cfg(kani)'
 
 prop('C01', title='Responses reach exactly the call that asked',
-     verus=['client'], native=['client_routing_bounded', 'client_wire_bounded'], technique=TECH_V + '; plus a bounded replay search through the public API as a source of concrete failing inputs (never counted as proved)',
+     verus=['client'], native=['client_routing_bounded', 'client_wire_bounded', 'deadlines_bounded'], technique=TECH_V + '; plus a bounded replay search through the public API as a source of concrete failing inputs (never counted as proved)',
      assumptions=COMMON_V + ['A-oneshot', 'A-mpsc', 'A-ids', 'A-pair', 'A-delayqueue', 'A-sink'],
      level_text='Deductive proof over all table states, ids and responses: complete_request/complete/pump_read deliver a response body only to the oneshot channel stored under the response\'s own id, remove exactly that entry, and leave view, timers and effect log untouched for an unknown id; the write pump only ever delivers errors; insert stores exactly the given sender under the id written to the wire. Every history is a sequence of these contracted calls (single-owner dispatch); that step is itself machine-checked: each table function carries the step relation of lemmas/client_history.rs as a postcondition, and lemma_history proves by induction over every sequence of such steps that a delivery stemming from a response went to the channel of the call owning the response\'s id, with a value received for that id, at most once per call.',
      level_note='Channel::call is under contract too: the sender it enqueues under the allocated id is the sender of the very receiver it then awaits (A-pair reduced to the model of oneshot::channel()). tokio\'s oneshot delivery is assumed (A-oneshot).',
@@ -172,19 +178,19 @@ prop('C19', title='Request hooks run in order and short-circuit correctly',
      level_note='The one-poll executor makes a suspending hook out of scope (hooks whose futures return Pending are resumed by the same state machine; not modelled). Unwinding assertions are on.',
      not_covered='hooks that suspend')
 prop('C20', title='Load-balancing and retry stubs keep their dispatch promises',
-     verus=['lb_fairness'],
+     verus=['lb_fairness', 'retry'],
      kani=['k5_cycle_next_is_counter_mod_len', 'k5_cycle_next_upto8', 'k5_round_robin_call_uses_next', 'k5_consistent_hash_valid_and_stable', 'k5_serve_as_stub_passes_through', 'k5_retry_attempts_numbered_and_last_result'],
      native=['retry_bounded', 'round_robin_bounded'],
-     technique=TECH_K + '; Retry::call: Kani harness bounded to 3 attempts (symbolic results/decisions/clock) plus a bounded native stand-in (exhaustive to 5 attempts)',
-     assumptions=['A-verifiers', 'A-ids'],
-     level_text='CBMC proof that State::next returns element (counter % len) and advances the atomic counter by exactly one for every counter value including the wrap (so concurrent calls get consecutive distinct counters); that ConsistentHash picks hash % len < len, never panics and is a function of the request hash only (symbolic hasher); that a Serve used as a Stub passes context, request and result through. Backend counts are enumerated (1..=4 / 1..=3): labelled bounded in that dimension.',
-     level_note='Retry::call is checked by a Kani harness on the real function with symbolic results, policy decisions, deadline and clock, bounded to 3 attempts (unwinding assertions on), and by a bounded native stand-in (5 attempts): both labelled bounded, not counted as proved for all attempt counts. The fairness corollary (per-backend counts differ by at most one over any m consecutive counter values, for every start value, m and backend count) is a Verus lemma over that contract (lemmas/round_robin_fair.rs); it assumes no wrap of the 64-bit counter (fewer than 2^64 calls).',
-     bounded=['backend count dimension enumerated (cycle 1..=4, consistent hash 1..=3, round robin 3)', 'Retry::call: at most 3 attempts under Kani, 5 in the native stand-in'],
-     not_covered='Retry beyond 5 attempts; round-robin fairness across a wrap of the 64-bit call counter')
+     technique=TECH_V + ' (unit lb_fairness: cycle::State::next, AtomicCycle::next, RoundRobin::call, ConsistentHash::call for every number of backends; unit retry: Retry::call for every number of attempts; the generic backing stub is instantiated with an opaque logging model); ' + TECH_K + ' as the second opinion on the same functions with the real atomics and hasher (backend counts enumerated, 3 attempts) and as the source of concrete failing inputs, next to two native enumerations',
+     assumptions=['A-verifiers', 'A-ids', 'A-extraction', 'A-tracing', 'A-stub', 'A-range-from', 'A-atomic', 'A-hash'],
+     level_text='Verus proof on the real functions, for every number n of backends: State::next / AtomicCycle::next return element (counter % n) and advance the shared counter by exactly one (wrapping); RoundRobin::call makes exactly one call, on that backend, with the caller\'s context and request, and passes its answer through; ConsistentHash::call makes exactly one call, on backend hash(request) % n (a function of hasher and request only), never panics on the index conversion, and passes the answer through. CBMC proof that State::next returns element (counter % len) and advances the atomic counter by exactly one for every counter value including the wrap (so concurrent calls get consecutive distinct counters); that ConsistentHash picks hash % len < len, never panics and is a function of the request hash only (symbolic hasher); that a Serve used as a Stub passes context, request and result through. Backend counts are enumerated (1..=4 / 1..=3): labelled bounded in that dimension.',
+     level_note='Retry::call is under a Verus contract (unit retry) for every number of attempts below 2^32: every call on the wrapped stub carries the caller\'s context and request, attempts are numbered 1, 2, 3, ..., the policy asked for a retry after every attempt but the last and not after the last, the last attempt\'s result is returned, and nothing else is done to the wrapped stub. The wrapped generic Stub is instantiated with an opaque model (async trait fns are outside Verus); `for i in 1..` is written out as the counter loop it denotes (R18). It is also checked by a Kani harness on the real function with symbolic results, policy decisions, deadline and clock, bounded to 3 attempts (unwinding assertions on), and by a native enumeration (5 attempts): those two are labelled bounded. The fairness corollary (per-backend counts differ by at most one over any m consecutive counter values, for every start value, m and backend count) is a Verus lemma over that contract (lemmas/round_robin_fair.rs); it assumes no wrap of the 64-bit counter (fewer than 2^64 calls).',
+     bounded=['backend count dimension enumerated (cycle 1..=4, consistent hash 1..=3, round robin 3)', 'Retry::call under Kani: at most 3 attempts; native enumeration: 5 (the Verus contract of unit retry is unbounded)'],
+     not_covered='an empty backend list (both balancers divide by the length: a configuration error, stated as precondition); ConsistentHash::new / with_hasher; Retry beyond 2^32 - 1 attempts (the u32 attempt counter: std may panic, wrap or saturate); termination of Retry::call (depends on the policy); round-robin fairness across a wrap of the 64-bit call counter')
 
 prop('C13', title='Per-key channel limit is never exceeded nor over-applied',
      verus=['channels'], native=['channels_bounded', 'channels_exec_bounded'], technique=TECH_V + '; Arc/Weak strong counts modelled by a threaded ghost world; plus a bounded replay search through the public API as a source of concrete failing inputs (never counted as proved)',
      assumptions=COMMON_V + ['A-arc', 'A-mpsc'],
      level_text='Proof of a data-structure invariant over (key_counts, ghost world of live trackers): every tracker that still has a live yielded channel is the one recorded for its key and holds at most n channels; an entry is forgotten only when its tracker is dead. Every function of the filter (admission, close-notification processing incl. stale ones, the poll loop) preserves it; a lemma shows it is stable under channels being dropped by the environment at any time; admission is refused only if n channels of that key are alive at that moment.',
-     level_note='Function-level atomicity w.r.t. channel drops inside increment_channels_for_key (between strong_count and upgrade) is assumed; key type instantiated with u64.',
-     not_covered='a drop racing inside increment_channels_for_key; TrackedChannel forwarding methods')
+     level_note='Function-level atomicity w.r.t. channel drops inside increment_channels_for_key (between strong_count and upgrade) is assumed; key type instantiated with u64. The forwarders of TrackedChannel (poll_next, poll_ready, start_send, poll_flush, poll_close, in_flight_requests) are under contract too: each performs exactly the one operation of the wrapped channel, returns its answer unchanged and keeps its tracker (the limit is not over-applied to an admitted channel: it behaves as the channel it wraps).',
+     not_covered='a drop racing inside increment_channels_for_key; what else may hold a tracker alive (e.g. an overridden Channel::execute handing it to handlers: only the replay search channels_exec_bounded sees that); TrackedChannel::config/transport/get_ref (plain projections)')
